@@ -33,6 +33,16 @@
 #include "bee2/crypto/bpki.h"
 #include "bee2/crypto/brng.h"
 
+/* Without -DC09_WRAP (no --wrap link flags: the C19 stream builds this harness plainly) the interposers are
+   dead code and the `__real_` names are the ordinary functions; only `chk` is meaningful then. */
+#ifndef C09_WRAP
+#define __real_malloc malloc
+#define __real_free free
+#define __real_realloc realloc
+#define __real_blobCreate blobCreate
+#define __real_blobClose blobClose
+#define __real_blobResize blobResize
+#endif
 void* __real_malloc(size_t);
 void __real_free(void*);
 void* __real_realloc(void*, size_t);
@@ -552,7 +562,7 @@ static err_t s_bpkiSW(int var)
 	sec_add(BUF3 + 1, 32, "share"); sec_add(DATA + 300, 24, "password");
 	out_add(BUF1, 256);
 	if (var == 0) { g_expect = ERR_OK; return RUN("bpkiShareWrap", bpkiShareWrap(BUF1, &EPKI_LEN, BUF3, 33, DATA + 300, 24, IV16, 10000)); }
-	g_expect = ERR_BAD_SECKEY; return RUN("bpkiShareWrap", bpkiShareWrap(BUF1, &EPKI_LEN, BUF3, 32, DATA + 300, 24, IV16, 10000));
+	g_expect = ERR_BAD_SHAREKEY; return RUN("bpkiShareWrap", bpkiShareWrap(BUF1, &EPKI_LEN, BUF3, 32, DATA + 300, 24, IV16, 10000));
 }
 static err_t s_bpkiSU(int var)
 {
